@@ -236,9 +236,136 @@ pub fn one_scenario(rep: &Report, idx: usize, sc: &Scenario, keep: bool) -> Opti
     res.err()
 }
 
+/// Magnitudes: runs of adjacent missing chunks whose total size crosses 2^31 and 2^32
+/// (chunks of hundreds of MiB up to the format's u32 limit). Nothing that large is
+/// transferred: the dictionary is written by the independent encoder, the server holds the
+/// header only, logs the Range of every request on arrival and answers a chunk-data request
+/// with the announced length but only the first bytes, then closes (retry budget 0). The
+/// first chunk-data request therefore shows how far the client merged the first run.
+fn giant_run_case(idx: usize, seed: u64) -> Result<(u64, bool), String> {
+    use crate::refimpl::codec::{Desc, Dict, EncStyle, Params};
+    let mut rng = Rng::new(seed).fork(0x07_6000 + idx as u64);
+    let nd = rng.urange(3, 9);
+    let mut descs = Vec::new();
+    let mut off = 0u64;
+    for i in 0..nd {
+        let size: u32 = match rng.below(5) {
+            0 => rng.range(1 << 10, 1 << 16) as u32,
+            1 => rng.range(300 << 20, 700 << 20) as u32,
+            2 => rng.range(1 << 30, (1u64 << 31) - 1) as u32,
+            3 => rng.range(1u64 << 31, u32::MAX as u64) as u32,
+            _ => u32::MAX - rng.below(3) as u32,
+        };
+        // one chunk in four is followed by a gap: runs end there
+        let gap = if rng.chance(1, 4) { rng.range(1, 1 << 20) } else { 0 };
+        descs.push(Desc { checksum: crate::util::b2(&[&(idx as u64).to_le_bytes()[..], &(i as u64).to_le_bytes()[..]].concat()).to_vec(), archive_size: size, archive_offset: off, source_size: size });
+        off += size as u64 + gap;
+    }
+    let total: u64 = descs.iter().map(|d| d.source_size as u64).sum();
+    let dict = Dict {
+        app_version: "giant".into(),
+        source_checksum: vec![7u8; 64],
+        source_total_size: total,
+        params: Some(Params { filter_bits: 0, min: 0, max: u32::MAX, window: 0, hash_len: 64, algo: 2 }),
+        compression: Some((0, 0)),
+        rebuild_order: (0..nd as u32).collect(),
+        descs: descs.clone(),
+        metadata: vec![],
+        unknown_fields: 0,
+    };
+    let header = enc::assemble(&dict, &EncStyle::default(), None, &[]);
+    let parsed = crate::refimpl::codec::parse_archive(&header).map_err(|e| format!("harness: own header does not parse: {}", e))?;
+    let base = parsed.chunk_data_offset;
+    let hlen = header.len() as u64;
+    // subset of missing chunks; expected first run
+    let mut subset: Vec<usize> = (0..nd).filter(|_| rng.chance(3, 4)).collect();
+    if subset.is_empty() {
+        subset = (0..nd).collect();
+    }
+    let mut run_end = base + descs[subset[0]].archive_offset + descs[subset[0]].archive_size as u64;
+    let run_start = base + descs[subset[0]].archive_offset;
+    let mut members = 1;
+    for w in subset.windows(2) {
+        if w[1] == w[0] + 1 && base + descs[w[1]].archive_offset == run_end {
+            run_end += descs[w[1]].archive_size as u64;
+            members += 1;
+        } else {
+            break;
+        }
+    }
+    let want = (run_start, run_end - 1);
+    let server = Server::start(
+        Arc::new(header.clone()),
+        Arc::new(move |req: &httpd::Req, _f: &[u8]| match req.range {
+            Some((a, b)) if a >= hlen && b >= a => httpd::Action::Custom { status: 206, declared_len: Some(b - a + 1), body: vec![0u8; ((b - a) as usize).min(700)] },
+            _ => httpd::Action::Full,
+        }),
+    );
+    let url = server.url();
+    let log = server.log_handle();
+    let rt = crate::exec::rt_multi(1);
+    let res: Result<(), String> = rt.block_on(async {
+        let reader = crate::lib_drv::http_reader(&url, 0)?;
+        let a = tokio::time::timeout(std::time::Duration::from_secs(60), bitar::Archive::try_init(reader)).await.map_err(|_| "inconclusive: watchdog".to_string())?;
+        let mut a = a.map_err(|e| format!("inconclusive: the reader rejects the giant dictionary: {:?}", e))?;
+        let mut index = bitar::ChunkIndex::new_empty(64);
+        for &i in &subset {
+            index.add_chunk(bitar::HashSum::from(&descs[i].checksum[..]), descs[i].source_size as usize, &[0]);
+        }
+        let mut st = a.chunk_stream(&index);
+        let r = tokio::time::timeout(std::time::Duration::from_secs(60), async {
+            while let Some(item) = st.next().await {
+                if item.is_err() {
+                    break;
+                }
+            }
+        })
+        .await;
+        r.map_err(|_| "inconclusive: watchdog".to_string())
+    });
+    res?;
+    let got: Vec<(u64, u64)> = log.ranges_from(0).into_iter().filter(|r| r.0 >= hlen).collect();
+    let Some(first) = got.first() else {
+        return Err("inconclusive: no chunk-data request seen".into());
+    };
+    if *first != want {
+        return Err(format!(
+            "first run of missing chunks is {} adjacent chunks = bytes {}-{} ({} bytes); the first chunk-data request asked for {}-{} (all chunk-data requests: {:?})",
+            members, want.0, want.1, want.1 - want.0 + 1, first.0, first.1, got
+        ));
+    }
+    Ok((want.1 - want.0 + 1, members >= 2))
+}
+
+fn giant_runs(rep: &Report, seed: u64, tier: Tier) {
+    let n = tier.pick(48, 600);
+    let out = par_map(n, crate::util::ncpu(), |i| (i, giant_run_case(i, seed)));
+    for (i, r) in out {
+        rep.eval();
+        match r {
+            Ok((len, multi)) => {
+                rep.count("giant.first_runs_judged", 1);
+                if multi && len > (1u64 << 31) {
+                    rep.count("giant.multi_chunk_runs_over_2GiB", 1);
+                }
+                if multi && len > (1u64 << 32) {
+                    rep.count("giant.multi_chunk_runs_over_4GiB", 1);
+                    rep.nontrivial(format!("giant:{}", i));
+                }
+            }
+            Err(why) if why.starts_with("inconclusive") => rep.inconclusive("giant run case"),
+            Err(why) => rep.violation("c07/giant-run/first request differs from the maximal run", json!({"why": why, "idx": i}), json!({"engine": "giant", "idx": i, "seed": seed})),
+        }
+    }
+    if rep.counter("giant.multi_chunk_runs_over_2GiB") == 0 {
+        rep.broken("no run of adjacent chunks over 2 GiB was judged".into());
+    }
+}
+
 pub fn run(tier: Tier, seed: u64) -> i32 {
     let rep = Report::new("C07", "exploration", tier, seed);
     library_engine(&rep, seed, tier);
+    giant_runs(&rep, seed, tier);
     let n = tier.pick(500, 15_000);
     let viols = par_map(n, crate::util::ncpu(), |i| {
         let mut rng = Rng::new(seed).fork(0x0700 + i as u64);
@@ -271,6 +398,19 @@ pub fn replay(v: &Value) -> i32 {
     let r = &v["replay"];
     let mut rep = Report::new("C07", "exploration", Tier::Quick, r["seed"].as_u64().unwrap_or(1));
     rep.replay_mode = true;
+    if r["engine"] == "giant" {
+        return match giant_run_case(r["idx"].as_u64().unwrap_or(0) as usize, r["seed"].as_u64().unwrap_or(1)) {
+            Err(w) if !w.starts_with("inconclusive") => {
+                println!("replay: VIOLATED: {}", w);
+                println!("VIOLATION property=C07 replay=(replayed)");
+                1
+            }
+            other => {
+                println!("replay: property held on this case ({:?})", other);
+                0
+            }
+        };
+    }
     if r["engine"] == "lib" {
         library_engine(&rep, r["seed"].as_u64().unwrap_or(1), Tier::Quick);
         return if rep.violations() > 0 { 1 } else { 0 };
